@@ -335,9 +335,9 @@ func Send(method, rawurl string, options ...SendOption) (*http.Response, error) 
 		// Retry without tls. During migration there would be a time when the
 		// component receiving the tls request does not serve https response.
 		// TODO (@evelynl): disable retry after tls migration.
-		if err != nil && req.URL.Scheme == "https" && !opts.httpFallbackDisabled {
+		if err != nil && req.URL.Scheme == "https" && !opts.httpFallbackDisabled && resetBody(req) {
 			originalErr := err
-			resp, err = fallbackToHTTP(client, method, opts)
+			resp, err = fallbackToHTTP(client, req)
 			if err != nil {
 				// Sometimes the request fails for a reason unrelated to https.
 				// To keep this reason visible, we always include the original
@@ -353,6 +353,9 @@ func Send(method, rawurl string, options ...SendOption) (*http.Response, error) 
 			d := opts.retry.backoff.NextBackOff()
 			if d == backoff.Stop {
 				break // Backoff timed out.
+			}
+			if !resetBody(req) {
+				break // The body was consumed by this attempt and cannot be sent again.
 			}
 			time.Sleep(d)
 			continue
@@ -459,6 +462,25 @@ func ParseDigest(r *http.Request, name string) (core.Digest, error) {
 	return d, nil
 }
 
+// resetBody prepares req to be sent again. A request without a body can always be
+// resent. One with a body has had it consumed by the previous attempt, and can
+// only be resent if a fresh copy of the body can be obtained (req.GetBody, which
+// http.NewRequest sets for bytes.Buffer, bytes.Reader and strings.Reader bodies).
+func resetBody(req *http.Request) bool {
+	if req.Body == nil || req.Body == http.NoBody {
+		return true
+	}
+	if req.GetBody == nil {
+		return false
+	}
+	body, err := req.GetBody()
+	if err != nil {
+		return false
+	}
+	req.Body = body
+	return true
+}
+
 func newRequest(method string, opts *sendOptions) (*http.Request, error) {
 	req, err := http.NewRequest(method, opts.url.String(), opts.body)
 	if err != nil {
@@ -474,13 +496,9 @@ func newRequest(method string, opts *sendOptions) (*http.Request, error) {
 	return req, nil
 }
 
-func fallbackToHTTP(
-	client *http.Client, method string, opts *sendOptions,
-) (*http.Response, error) {
-	req, err := newRequest(method, opts)
-	if err != nil {
-		return nil, err
-	}
+// fallbackToHTTP resends req, whose body must be unread, over plain http.
+func fallbackToHTTP(client *http.Client, req *http.Request) (*http.Response, error) {
+	req = req.Clone(req.Context())
 	req.URL.Scheme = "http"
 
 	return client.Do(req)
